@@ -51,7 +51,9 @@ def main():
     text = "\n".join(out)
     p = ROOT / "DESIGN.md"
     s = p.read_text()
-    s = re.sub(r"(<!-- CATCH-MATRIX-BEGIN -->\n).*?(\n<!-- CATCH-MATRIX-END -->)", lambda mo: mo.group(1) + text + mo.group(2), s, flags=re.S)
+    s, k = re.subn(r"(<!-- CATCH-MATRIX-BEGIN -->\n).*?(<!-- CATCH-MATRIX-END -->)", lambda mo: mo.group(1) + text + "\n" + mo.group(2), s, flags=re.S)
+    if k != 1:
+        raise SystemExit("CATCH-MATRIX markers not found exactly once in DESIGN.md")
     p.write_text(s)
     print(f"{hit}/{n}")
 
